@@ -2,7 +2,8 @@
 C15 - onion creation completes only on this service's confirmed descriptor upload.
 
 Case (driver "uploads"):
-  {"kind": "ephemeral" | "auth" | "fs" | "fsauth",   which create() is driven
+  {"kind": "ephemeral" | "auth" | "fs" | "fsauth" | "legacy",   which create() is driven ("legacy" = the deprecated
+                                                     torconfig.EphemeralHiddenService(...).add_to_tor(protocol): v2, one-success mode only)
    "version": 2 | 3,                                 ("auth"/"fsauth" are version 2: real RSA-1024 key)
    "key": "none" | "discard" | "supplied",           ephemeral kinds only
    "await_all": true | false | null,
@@ -57,7 +58,7 @@ RULE = ("Histories of HS_DESC UPLOAD/UPLOADED/FAILED events over 1..4 directorie
         "the ADD_ONION/SETCONF reply placed before/between/after them (own events of an ADD_ONION service may "
         "overtake the reply: judged against the 'counted' and the 'unrecorded' reading), both waiting modes, for "
         "EphemeralOnionService / EphemeralAuthenticatedOnionService / FilesystemOnionService / "
-        "FilesystemAuthenticatedOnionService .create over the real control protocol; after every event the "
+        "FilesystemAuthenticatedOnionService .create and the deprecated EphemeralHiddenService.add_to_tor over the real control protocol; after every event the "
         "create() Deferred is compared with a reference completion model, at the end with the subscription "
         "state. The creating command's reply is 250 or a 5xx rejection (512/513/550/551/552/553), or txtorcon "
         "refuses the key itself (CR/LF blob, RSA key with version 3; no command sent): then the service never "
@@ -83,12 +84,14 @@ ASSUMPTIONS = [
     "the foreign service may be of the other address version (v2 next to v3 and vice versa): it is still a foreign service",
     "the reference Tor sends an HS_DESC event only if HS_DESC is in the event set it most recently accepted through SETEVENTS when the event is emitted; with 'burst' the events right after the reply are emitted on acceptance of the command, before Tor reads anything else the controller wrote; an own event Tor did not send while the creation was undecided makes the model's decision unreachable and is reported (the unchanged tree subscribes before it sends the command, so it hears everything)",
     "v2 addresses not tied to a real RSA key (ephemeral, filesystem, auth+DISCARD) end in every base32 character by construction, o/n/i included; real v3 addresses always end in 'd'",
+    "the deprecated EphemeralHiddenService.add_to_tor (kind 'legacy': key NEW:BEST or a given RSA1024 blob, version 2) has no await-all mode and is judged in one-success mode whatever the case says; it completes with None today, the completion value is not judged for it",
     "rejection texts are short ASCII; the codes are the ones Tor uses for ADD_ONION/SETCONF (512, 513, 550, 551, 552, 553)",
     "Tor reports a version >= 0.2.7.2 (older ones have no usable HS_DESC and txtorcon documents that it then declares success at once)",
     "a discrepancy that disappears when the foreign service's UPLOADED events on directories the own service is uploading to are removed from the history is attributed to the known finding 'UPLOADED matched by directory only'; everything else keeps its own tag",
 ]
 
 ACTIONS = ("UPLOAD", "UPLOADED", "FAILED")
+ADD_ONION_KINDS = ("ephemeral", "auth", "legacy")
 B32 = "abcdefghijklmnopqrstuvwxyz234567"
 REJECT_CODES = [512, 513, 550, 551, 552, 553]
 REJECT_TEXTS = {512: "Bad arguments to ADD_ONION", 513: "Unacceptable option value", 550: "Onion address collision",
@@ -100,7 +103,7 @@ KNOWN_FOREIGN = "foreign-uploaded-on-shared-dir-counts"
 
 def interpret(case):
     """Drop steps a causal Tor cannot produce; returns (steps, skipped_count)."""
-    eph = case["kind"] in ("ephemeral", "auth")
+    eph = case["kind"] in ADD_ONION_KINDS
     # rejected / refused: the service is not created, so no own events - unless its address is known in
     # advance and the command was rejected: then the address may belong to a service that already runs
     # (re-sent HiddenServiceDir block, 550 collision for a supplied key) and its events do flow
@@ -202,6 +205,8 @@ def _execute(case, steps):
     version = case["version"]
     await_all = case["await_all"]
     n = case["n"]
+    if kind == "legacy":
+        version, await_all = 2, False         # the legacy route knows neither v3 nor await-all
 
     # addresses
     rsa_sid, rsa_blob = onionref.RSA_KEYS[n % len(onionref.RSA_KEYS)]
@@ -217,7 +222,7 @@ def _execute(case, steps):
     # the last character of a v2 address that is not tied to a real RSA key walks the base32 alphabet
     # (a real v3 address always ends in 'd': version byte)
     last = case.get("last")
-    free_addr = kind in ("ephemeral", "fs") or (kind == "auth" and case["key"] == "discard")
+    free_addr = kind in ("ephemeral", "fs", "legacy") or (kind == "auth" and case["key"] == "discard")
     if last is not None and version == 2 and free_addr:
         own = onionref.service_id(2, n)[:-1] + B32[last % 32]
         if own == foreign:
@@ -246,7 +251,14 @@ def _execute(case, steps):
         if case.get("app_listener"):
             tor.proto.add_event_listener("HS_DESC", app_listener)
             tor.pipe.pump()
-        if kind in ("ephemeral", "auth"):
+        if kind == "legacy":
+            # deprecated route: txtorcon.torconfig.EphemeralHiddenService(...).add_to_tor(protocol); v2, no await-all
+            from txtorcon.torconfig import EphemeralHiddenService
+            hs = EphemeralHiddenService(["80 127.0.0.1:8080"],
+                                        key_blob_or_type=("RSA1024:" + rsa_blob) if case["key"] == "supplied" else "NEW:BEST")
+            d = hs.add_to_tor(tor.proto)
+            reply = onionref.add_onion_reply(own, ("RSA1024:" + rsa_blob) if case["key"] != "supplied" else None, [])
+        elif kind in ("ephemeral", "auth"):
             pk = None
             if refuse == "crlf":
                 blob = rsa_blob if version == 2 else onionref.desc_id(3, n) + onionref.desc_id(3, n + 1)
@@ -291,11 +303,11 @@ def _execute(case, steps):
         tor.pipe.pump()
 
         try:
-            held = tor.add_onion_lines if kind in ("ephemeral", "auth") else tor.setconf_lines
+            held = tor.add_onion_lines if kind in ADD_ONION_KINDS else tor.setconf_lines
             ref = ob.ref = onionref.UploadModel(await_all)
             # latitude for ADD_ONION kinds: own uploads announced before the reply was read may be unrecorded
             ref_u = onionref.UploadModel(await_all)
-            eph = kind in ("ephemeral", "auth")
+            eph = kind in ADD_ONION_KINDS
             alive = {"counted": True, "unrecorded": True}
             pre_dirs = set()
             if refuse:
@@ -422,7 +434,7 @@ def _execute(case, steps):
             if w.succeeded:
                 svc = w.result
                 okobj = svc is not None and not isinstance(svc, (str, bytes, int)) and hasattr(svc, "ports")
-                if not okobj:
+                if not okobj and kind != "legacy":     # (add_to_tor completes with None today; not part of the statement)
                     ob.problems.append(("wrong-result", "create() returned %r" % (svc,)))
             # subscription once the outcome is out
             # (an application-owned listener, if the case has one, must be the only one left)
@@ -532,7 +544,7 @@ def drive_uploads(case):
         res.label("app-listener" + ("+never-exists" if never else ""))
     res.label("kind:" + kind, "v%d" % version, "mode:" + ("all" if await_all else "one"),
               "model:" + ("never-exists" if never else (ref.decision or "undecided")), "own-dirs:%d" % len(own_dirs))
-    if kind in ("ephemeral", "auth"):
+    if kind in ADD_ONION_KINDS:
         res.label("key:" + case["key"])
     if own_dirs & for_dirs:
         res.label("shared-dir")
@@ -594,8 +606,8 @@ def _events(who, maxdirs):
 
 @st.composite
 def cases(draw):
-    kind = draw(st.sampled_from(["ephemeral", "ephemeral", "ephemeral", "auth", "fs", "fs", "fs", "fsauth"]))
-    version = 2 if kind in ("auth", "fsauth") else draw(st.sampled_from([2, 3]))
+    kind = draw(st.sampled_from(["ephemeral", "ephemeral", "ephemeral", "auth", "fs", "fs", "fs", "fsauth", "legacy"]))
+    version = 2 if kind in ("auth", "fsauth", "legacy") else draw(st.sampled_from([2, 3]))
     nown = draw(st.integers(1, 4))
     nfor = draw(st.integers(0, 3))
     # build a causal trace: chains UPLOAD -> outcome per (service, dir), randomly merged and truncated
@@ -616,7 +628,7 @@ def cases(draw):
     # noise + reply position
     for _ in range(draw(st.integers(0, 2))):
         trace.insert(draw(st.integers(0, len(trace))), ["c", draw(st.sampled_from(["o", "f"]))])
-    if kind in ("ephemeral", "auth"):
+    if kind in ADD_ONION_KINDS:
         first_own = next((i for i, s in enumerate(trace) if s[0] == "o" or s == ["c", "o"]), len(trace))
         # one in three: the reply is read late, own events overtake it (judged with latitude)
         rpos = draw(st.integers(0, first_own if draw(st.integers(0, 2)) else len(trace)))
@@ -624,7 +636,8 @@ def cases(draw):
         rpos = draw(st.one_of(st.just(0), st.integers(0, len(trace))))
     trace.insert(rpos, ["R"])
     case = {"kind": kind, "version": version,
-            "key": draw(st.sampled_from(["none", "none", "discard", "supplied"])) if kind in ("ephemeral", "auth") else "none",
+            "key": (draw(st.sampled_from(["none", "none", "discard", "supplied"])) if kind in ("ephemeral", "auth") else
+                    draw(st.sampled_from(["none", "supplied"])) if kind == "legacy" else "none"),
             "await_all": draw(st.sampled_from([True, True, False, None])),
             "progress": draw(st.booleans()), "n": draw(st.integers(0, 5)), "trace": trace}
     outcome = draw(st.sampled_from(["ok", "ok", "ok", "ok", "ok", "rejected", "rejected", "refused"]))
@@ -711,7 +724,7 @@ def mixed_cases(own_dirs, foreign_dirs, kinds):
                 for tr in _merges(otr, ftr):
                     kind, version, key = kinds[k % len(kinds)]
                     k += 1
-                    if kind in ("ephemeral", "auth"):
+                    if kind in ADD_ONION_KINDS:
                         i = next(j for j, s in enumerate(tr) if s[0] == "o")
                         pos = i if k % 2 else 0
                     else:
@@ -733,10 +746,12 @@ def reply_placement_cases():
                         first_own = next(j for j, s in enumerate(tr) if s[0] == "o")
                         k += 1
                         kinds = [("ephemeral", 3, "none"), ("fs", 3, "none"), ("fs", 2, "none")]
+                        if k % 3 == 0:
+                            kinds.append(("legacy", 2, ["none", "supplied"][k % 2]))
                         if k % 6 == 0:
                             kinds += [("auth", 2, "none"), ("fsauth", 2, "none")]
                         for kind, version, key in kinds:
-                            last = first_own if kind in ("ephemeral", "auth") else len(tr)
+                            last = first_own if kind in ADD_ONION_KINDS else len(tr)
                             for pos in range(0, last + 1):
                                 k += 1
                                 c = _mk(kind, version, key, mode, k % 3, tr[:pos] + [["R"]] + tr[pos:])
@@ -749,7 +764,7 @@ def pre_reply_cases(ndirs):
     """ADD_ONION kinds: every causal order over ndirs own directories x every reply position that lets
     at least one own event overtake the reply x both modes (the service kind rotates)."""
     kinds = [("ephemeral", 3, "none"), ("ephemeral", 2, "supplied"), ("ephemeral", 3, "discard"),
-             ("ephemeral", 2, "none"), ("ephemeral", 3, "supplied")]
+             ("ephemeral", 2, "none"), ("ephemeral", 3, "supplied"), ("legacy", 2, "none"), ("legacy", 2, "supplied")]
     k = 0
     for mode in (True, False):
         for tr in _service_orders("o", list(range(ndirs))):
@@ -784,7 +799,8 @@ def last_char_cases():
     """every base32 character as the last character of the own v2 address, for every kind whose address
     is not tied to a real RSA key (o, n, i included by construction)"""
     for last in range(32):
-        for kind, key in (("auth", "discard"), ("ephemeral", "none"), ("ephemeral", "discard"), ("fs", "none")):
+        for kind, key in (("auth", "discard"), ("ephemeral", "none"), ("ephemeral", "discard"), ("fs", "none"),
+                          ("legacy", "none")):
             c = _mk(kind, 2, key, bool(last % 2), last % 3,
                     [["R"], ["o", "UPLOAD", 0], ["f", "UPLOAD", 0], ["o", "UPLOADED", 0]])
             c["last"] = last
@@ -797,7 +813,8 @@ def never_exists_cases():
     txtorcon refuses the key; with and without an application-owned HS_DESC listener."""
     k = 0
     kinds = [("ephemeral", 3, "none"), ("ephemeral", 2, "supplied"), ("ephemeral", 3, "discard"),
-             ("fs", 3, "none"), ("fs", 2, "none"), ("auth", 2, "none"), ("fsauth", 2, "none")]
+             ("fs", 3, "none"), ("fs", 2, "none"), ("auth", 2, "none"), ("fsauth", 2, "none"),
+             ("legacy", 2, "none"), ("legacy", 2, "supplied")]
     traces = [[]] + list(_service_orders("f", [0])) + list(_service_orders("f", [0, 1]))
     for tr in traces:
         for app in (False, True):
@@ -818,7 +835,8 @@ def never_exists_cases():
 
 
 _PLAIN = [("ephemeral", 2, "none"), ("ephemeral", 3, "none"), ("fs", 3, "none"), ("ephemeral", 3, "discard"),
-          ("fs", 2, "none"), ("ephemeral", 2, "supplied"), ("ephemeral", 3, "supplied"), ("ephemeral", 2, "discard")]
+          ("fs", 2, "none"), ("ephemeral", 2, "supplied"), ("legacy", 2, "none"), ("ephemeral", 2, "discard"),
+          ("ephemeral", 3, "supplied"), ("legacy", 2, "supplied")]
 _RSA = [("auth", 2, "none"), ("fsauth", 2, "none"), ("auth", 2, "discard"), ("auth", 2, "supplied")]
 # the RSA-key kinds cost ~7 ms per event (txtorcon re-parses the key on every event): one slot in 24
 ALL_KINDS = []
